@@ -52,8 +52,20 @@ func VerifC13Pipe() {
 	outs[0].Open()
 	var tr Track
 	// resolution 500 at 120 BPM: exactly one tick per millisecond (the engine replaces Ticks by that contract)
-	stop, err := tr.RecordFrom(ins[0], MetricTicks(500), 120)
-	zz.Assert(err == nil, "record:start-ok")
+	var stop func()
+	var err error
+	var file *SMF // wrapper=1: through the file-level wrapper SMF.RecordFrom, which closes and adds the track itself
+	if zz.Param("wrapper") == 1 {
+		file = New()
+		file.TimeFormat = MetricTicks(500)
+		stop, err = file.RecordFrom(ins[0], 120)
+	} else {
+		stop, err = tr.RecordFrom(ins[0], MetricTicks(500), 120)
+	}
+	zz.Assert(err == nil && stop != nil, "record:start-ok")
+	if err != nil || stop == nil {
+		return
+	}
 	var want [][]byte
 	var wantDelta []uint32
 	var since uint32 // milliseconds since the previous recorded channel message
@@ -71,6 +83,13 @@ func VerifC13Pipe() {
 		}
 	}
 	stop()
+	if file != nil {
+		zz.Assert(len(file.Tracks) == 1 && file.Tracks[0].IsClosed(), "record:wrapper-adds-the-closed-track-once")
+		if len(file.Tracks) != 1 {
+			return
+		}
+		tr = file.Tracks[0]
+	}
 	tr.Close(0)
 	// the track holds the tempo event, then exactly the channel messages, unchanged and in order
 	zz.Assert(len(tr) == len(want)+2, "record:only-channel-messages-after-the-tempo-event")
